@@ -92,6 +92,9 @@ def items(tier):
         out.append((sp, {"rule": "TSLACK", "max_time": F.seq_bound(sp) + 8}))
     for sp in F.float_order_specs() + F.same_name_workplace_specs()[:4] + [F.shared_id_spec(), F.waiting_component_spec()] + F.auto_placement_specs()[:3]:
         out.append((sp, {"rule": "TSLACK", "max_time": F.seq_bound(sp) + 8}))
+    for sp, o in F.scale_items():
+        if not o.get("res_absence") and o["absence"] in ([], F.SCALE_ABSENCE[1]):
+            out.append((sp, o))
     # a step width other than 1 (pause steps on and off the time grid)
     for sp, o in list(out)[:: (23 if tier == "quick" else 7)]:
         for u in (2, 3):
